@@ -18,6 +18,17 @@
 (*   obffed : bytes        the prescribed obfuscated form fed to decode     *)
 (*   obfenc : ok, bytes    obfuscation.encode(data, key)                    *)
 (*   obfdec : ok, bytes    obfuscation.decode(fed)                          *)
+(* for a giant case (gcase: cls, rest, rep, elem, K - see Codec, RepPieces)  *)
+(*   gfed / gser / genc : [ok,] bytes, zok, sum   a compressed frame and the *)
+(*            summary of inflate(payload) (Codec!SummaryOK)                  *)
+(*   gdeser : ok, via, cls, n, alleq, first, rest   a parser's result: the   *)
+(*            rep field has n elements, all equal to `first`; other fields   *)
+(* and for a connection case (conncase: obf, msgs = <<[cls, v], ...>>)       *)
+(*   stream : ok, bytes     everything the connection wrote while the        *)
+(*            messages were sent concurrently under back-pressure            *)
+(*   recv   : ok, cls, v    a message the receiving connection decoded       *)
+(*   recvdone               the receiver has read as many as were sent       *)
+(*   send   : ok = FALSE    a send raised                                    *)
 (* ok = FALSE (with exc) records an exception raised by the code under test.*)
 (* zok/inflated: for compressed messages the harness' zlib.decompress of    *)
 (* the payload (zlib is an uninterpreted bijection for the specification).  *)
@@ -34,8 +45,9 @@ VARIABLES tid, l,
           body,     \* Body(m, v) of the case (data for an obfuscation case)
           wire,     \* the accepted wire form: Frame(m, v); for a compressed message the real frame
                     \* once `ser` showed it valid; Obf(key, data) for an obfuscation case
-          last      \* [prop, good]: what the last event showed
-tvars == <<tid, l, body, wire, last>>
+          last,     \* [prop, good]: what the last event showed
+          pend      \* connection case: indices of the messages not yet received
+tvars == <<tid, l, body, wire, last, pend>>
 
 T == Traces[tid]
 Rec == T[l]
@@ -45,16 +57,22 @@ M == Messages[C.cls]
 TInit ==
   /\ tid \in 1..Len(Traces)
   /\ l = 2
-  /\ Traces[tid][1].ev \in {"case", "obfcase"}
-  /\ IF Traces[tid][1].ev = "case"
-     THEN LET m == Messages[Traces[tid][1].cls]
-              b == Body(m, Traces[tid][1].v)
-          IN body = b /\ wire = IF m.compressed THEN <<>> ELSE FrameOf(m, b)
-     ELSE body = Traces[tid][1].data /\ wire = Obf(Traces[tid][1].key, Traces[tid][1].data)
+  /\ LET c == Traces[tid][1] IN
+       /\ c.ev \in {"case", "obfcase", "gcase", "conncase"}
+       /\ CASE c.ev = "case" ->
+                 LET m == Messages[c.cls]
+                     b == Body(m, c.v)
+                 IN body = b /\ wire = (IF m.compressed THEN <<>> ELSE FrameOf(m, b)) /\ pend = {}
+            [] c.ev = "obfcase" -> body = c.data /\ wire = Obf(c.key, c.data) /\ pend = {}
+            [] c.ev = "gcase" ->
+                 LET p == RepPieces(Messages[c.cls], c.rest, c.rep, c.elem)
+                 IN body = <<p.pre, p.unit, p.post>> /\ wire = <<>> /\ pend = {}
+            [] c.ev = "conncase" ->
+                 body = <<>> /\ wire = <<>> /\ pend = 1..Len(c.msgs)
   /\ last = [prop |-> "init", good |-> TRUE]
 
 IsEv(e) == l <= Len(T) /\ Rec.ev = e
-Consume == l' = l + 1 /\ UNCHANGED <<tid, body>>
+Consume == l' = l + 1 /\ UNCHANGED <<tid, body, pend>>
 Show(p, g) == last' = [prop |-> p, good |-> g]
 
 \* Is F a wire form of the case?
@@ -81,7 +99,7 @@ TEnc ==
 
 \* an obfuscated connection sends key \o obfuscated(wire form); the key is the sender's choice
 TEncObf ==
-  /\ IsEv("encobf") /\ C.ev = "case" /\ Rec.ok
+  /\ IsEv("encobf") /\ C.ev \in {"case", "gcase"} /\ Rec.ok
   /\ Show("obf", Len(Rec.bytes) >= 4 /\ wire # <<>> /\ Deobf(Rec.bytes) = wire)
   /\ Consume /\ UNCHANGED wire
 
@@ -106,9 +124,57 @@ TObfDec ==
   /\ Show("obf", Rec.bytes = body)
   /\ Consume /\ UNCHANGED wire
 
+\* ---- giant cases ---------------------------------------------------------------
+Pieces == [pre |-> body[1], unit |-> body[2], post |-> body[3]]
+ValidGiant(F, zok, sum) == HeaderOK(M, F) /\ zok /\ SummaryOK(sum, Pieces, C.K)
+
+TGFed ==
+  /\ IsEv("gfed") /\ C.ev = "gcase"
+  /\ Show("fed", ValidGiant(Rec.bytes, Rec.zok, Rec.sum))
+  /\ Consume /\ UNCHANGED wire
+
+TGSer ==
+  /\ IsEv("gser") /\ C.ev = "gcase" /\ Rec.ok
+  /\ LET g == ValidGiant(Rec.bytes, Rec.zok, Rec.sum) IN
+       Show("bytes", g) /\ wire' = IF g THEN Rec.bytes ELSE wire
+  /\ Consume
+
+TGEnc ==
+  /\ IsEv("genc") /\ C.ev = "gcase" /\ Rec.ok
+  /\ Show("bytes", ValidGiant(Rec.bytes, Rec.zok, Rec.sum))
+  /\ Consume /\ UNCHANGED wire
+
+TGDeser ==
+  /\ IsEv("gdeser") /\ C.ev = "gcase" /\ Rec.ok
+  /\ Show("decode", /\ Rec.cls = C.cls /\ Rec.n = C.K /\ Rec.alleq /\ Rec.first = C.elem
+                     /\ Rec.rest = Expected(M, C.rest))
+  /\ Consume /\ UNCHANGED wire
+
+\* ---- connection cases ---------------------------------------------------------
+\* (the prescribed frames are built here and not kept in the state: they are only needed once)
+TStream ==
+  /\ IsEv("stream") /\ C.ev = "conncase" /\ Rec.ok
+  /\ \E frames \in {[i \in 1..Len(C.msgs) |-> Frame(Messages[C.msgs[i].cls], C.msgs[i].v)]} :
+       Show("stream", StreamIntact(Rec.bytes, frames, C.obf))
+  /\ Consume /\ UNCHANGED wire
+
+TRecv ==
+  /\ IsEv("recv") /\ C.ev = "conncase" /\ Rec.ok
+  /\ LET hits == {i \in pend : /\ Rec.cls = C.msgs[i].cls
+                                /\ Rec.v = Expected(Messages[C.msgs[i].cls], C.msgs[i].v)}
+     IN IF hits = {} THEN Show("decode", FALSE) /\ pend' = pend
+        ELSE Show("decode", TRUE) /\ pend' = pend \ {CHOOSE i \in hits : TRUE}
+  /\ l' = l + 1 /\ UNCHANGED <<tid, body, wire>>
+
+TRecvDone ==
+  /\ IsEv("recvdone") /\ C.ev = "conncase"
+  /\ Show("decode", pend = {})
+  /\ Consume /\ UNCHANGED wire
+
 \* the code under test raised, or a pinned class does not exist any more
 TExc ==
-  /\ l <= Len(T) /\ Rec.ev \in {"ser", "enc", "encobf", "deser", "obfenc", "obfdec", "missing"} /\ ~Rec.ok
+  /\ l <= Len(T) /\ Rec.ev \in {"ser", "enc", "encobf", "deser", "obfenc", "obfdec", "missing",
+                                "gser", "genc", "gdeser", "stream", "recv", "send"} /\ ~Rec.ok
   /\ Show("exception", FALSE)
   /\ Consume /\ UNCHANGED wire
 
@@ -116,22 +182,25 @@ Done ==
   /\ l = Len(T) + 1
   /\ PrintT(<<"ACCEPT", tid, {}>>)
   /\ l' = l + 1
-  /\ UNCHANGED <<tid, body, wire, last>>
+  /\ UNCHANGED <<tid, body, wire, last, pend>>
 
 Finished == l = Len(T) + 2 /\ UNCHANGED tvars
 
-TNext == TFed \/ TSer \/ TEnc \/ TEncObf \/ TDeser \/ TObfFed \/ TObfEnc \/ TObfDec \/ TExc \/ Done \/ Finished
+TNext == TFed \/ TSer \/ TEnc \/ TEncObf \/ TDeser \/ TObfFed \/ TObfEnc \/ TObfDec
+           \/ TGFed \/ TGSer \/ TGEnc \/ TGDeser \/ TStream \/ TRecv \/ TRecvDone \/ TExc \/ Done \/ Finished
 
 TSpec == TInit /\ [][TNext]_tvars
 
 \* what an error trace shows (TraceDiag.cfg): the byte sequences are left out
-DiagView == [tid |-> tid, l |-> l, last |-> last, bodyLen |-> Len(body), wireLen |-> Len(wire)]
+DiagView == [tid |-> tid, l |-> l, last |-> last, bodyLen |-> Len(body), wireLen |-> Len(wire), pend |-> pend]
 
 \* ---- the property, one line per clause --------------------------------------
 \* bytes produced for a value are the bytes the pinned layout prescribes (length prefix, code, body)
 ByteCompat == ~(last.prop = "bytes" /\ ~last.good)
 \* parsing the prescribed bytes yields an equal message of the same class, through every entry point
 DecodeEqual == ~(last.prop = "decode" /\ ~last.good)
+\* messages sent concurrently over one connection reach the wire as whole frames, in some order
+FramesIntact == ~(last.prop = "stream" /\ ~last.good)
 \* obfuscated output de-obfuscates (by the documented algorithm) to the wire form, and vice versa
 ObfCompat == ~(last.prop = "obf" /\ ~last.good)
 \* in-domain values are encoded / decoded without an exception
